@@ -206,8 +206,15 @@ func Check(o Options) int {
 		if strings.HasSuffix(h.Name, "_thorough") && o.Tier != "thorough" {
 			continue
 		}
-		if o.Only != "" && !strings.Contains(h.Name, o.Only) {
-			continue
+		// --only: a full harness name (ZZ_...) selects exactly that harness, anything else is a substring
+		if o.Only != "" {
+			if strings.HasPrefix(o.Only, "ZZ_") {
+				if h.Name != o.Only {
+					continue
+				}
+			} else if !strings.Contains(h.Name, o.Only) {
+				continue
+			}
 		}
 		hs = append(hs, h)
 		relSet[h.Rel] = true
